@@ -148,8 +148,10 @@ def interpret(case, global_mod=None):
     rejected_then_ok = False
     pending_reject = False
     labels = set()
-    for lib, model in zip(libs, models):
-        verify(lib, model, "fresh library")
+    lazy = case.get("verify") == "end"         # do not touch the libraries' observers before / between the operations,
+    if not lazy:                               # so that lazily created internal state cannot hide behind an early call
+        for lib, model in zip(libs, models):
+            verify(lib, model, "fresh library")
     for k, op in enumerate(case["ops"]):
         li = int(op.get("lib", 0)) % nlibs
         lib, model = libs[li], models[li]
@@ -208,13 +210,14 @@ def interpret(case, global_mod=None):
                     raise Violation("unknown-name-error", f"{where}: lookup of unknown name {name!r} returned {got!r}")
         else:
             raise InvalidCase(op)
-        for j, (l2, m2) in enumerate(zip(libs, models)):
-            verify(l2, m2, where + (f" [observing lib {j}]" if j != li else ""))
+        if not lazy or k == len(case["ops"]) - 1:
+            for j, (l2, m2) in enumerate(zip(libs, models)):
+                verify(l2, m2, where + (f" [observing lib {j}]" if j != li else ""))
     if gkind == "none":
         # the real global library must not have noticed anything
         verify(ModuleLib(Tags), _global_model(Tags), "real global library after a local-only history")
     return {"nontrivial": hostile >= 1 and accepted >= 3 and rejected_then_ok,
-            "labels": sorted(labels) + [f"global-{gkind}", f"libs-{nlibs}"]}
+            "labels": sorted(labels) + [f"global-{gkind}", f"libs-{nlibs}"] + (["verify-at-end-only"] if lazy else [])}
 
 
 _gm = {}
@@ -246,7 +249,15 @@ def run_case(case):
 
 def hostile_names():
     import ECAgent.Tags as Tags
-    names = set(dir(Tags.TagLibrary)) | set(vars(Tags.TagLibrary())) | set(vars(Tags))
+    used = Tags.TagLibrary()                   # an instance on which every operation has been used once: attributes that the
+    try:                                       # library creates lazily are part of "its own attribute names" too
+        used.add_tag("VF_PROBE")
+        used.get_tag_name(0)
+        used.itemize()
+        len(used)
+    except Exception:
+        pass
+    names = set(dir(Tags.TagLibrary)) | set(vars(Tags.TagLibrary())) | set(vars(Tags)) | (set(vars(used)) - {"VF_PROBE"})
     names |= {"__class__", "__dict__", "__len__", "__init__", "__getattribute__", "__setattr__", "__slots__", "__weakref__",
               "__module__", "__doc__", "__hash__", "__eq__", "__getattr__", "__name__", "__file__", "__builtins__",
               "add_tag", "get_tag_name", "itemize", "_tag_counter", "_tag_names", "NONE", "TagLibrary", "_module_library",
@@ -267,5 +278,5 @@ def strategy(tier):
     look = st.fixed_dictionaries({"op": st.just("lookup"), "lib": st.integers(0, 2), "id": st.integers(-2, 12)})
     unk = st.fixed_dictionaries({"op": st.just("unknown"), "lib": st.integers(0, 2), "n": st.integers(0, 4)})
     gk = st.integers(0, 39).map(lambda v: "interpreter" if v == 0 else ("fresh-module" if v <= 10 else "none"))
-    return st.fixed_dictionaries({"libs": st.integers(1, 3), "global": gk,
+    return st.fixed_dictionaries({"libs": st.integers(1, 3), "global": gk, "verify": st.sampled_from(["every", "every", "end"]),
                                   "ops": wone_of(st.lists(wone_of(add, add, add, add, look, unk), min_size=1, max_size=25), sized_lists(wone_of(add, add, add, add, look, unk), 6, 25))})
